@@ -129,6 +129,25 @@ Definition counter_ok (effs : list ceff) : bool :=
   && forallb (fun e => match e with CAddSize | CSkip => true | _ => false end) effs.
 Definition counter_today : list ceff := [CAddSize].
 
+(* ---- Model.batch_evaluate_log_likelihood / _log_prior / _log_prior_unit_hypercube ---------- *)
+(* Each method hands batch_evaluate_function a user function, the flag that says whether THAT
+   function is vectorised, and the pool wrapper that calls it in the workers.  The regenerated
+   call table gives the three as identifiers; the property needs them to agree. *)
+Inductive fid := FLik | FPrior | FPriorUH.
+Record mcall := { m_func : fid; m_flag : fid; m_wrapper : fid; m_unit_map : bool; m_counts : bool }.
+Definition fid_eqb (a b : fid) : bool :=
+  match a, b with FLik, FLik | FPrior, FPrior | FPriorUH, FPriorUH => true | _, _ => false end.
+Definition mcall_ok (want : fid) (c : mcall) : bool :=
+  fid_eqb (m_func c) want && fid_eqb (m_flag c) want && fid_eqb (m_wrapper c) want
+  && Bool.eqb (m_counts c) (fid_eqb want FLik).       (* only likelihood evaluations are counted *)
+Definition calls_ok (cs : list (fid * mcall)) : bool :=
+  forallb (fun p => mcall_ok (fst p) (snd p)) cs
+  && forallb (fun w => existsb (fun p => fid_eqb (fst p) w) cs) [FLik; FPrior; FPriorUH].
+Definition calls_today : list (fid * mcall) :=
+  [(FLik, {| m_func := FLik; m_flag := FLik; m_wrapper := FLik; m_unit_map := true; m_counts := true |});
+   (FPrior, {| m_func := FPrior; m_flag := FPrior; m_wrapper := FPrior; m_unit_map := true; m_counts := false |});
+   (FPriorUH, {| m_func := FPriorUH; m_flag := FPriorUH; m_wrapper := FPriorUH; m_unit_map := false; m_counts := false |})].
+
 (* ---- executable instance used by the correspondence check ---------------- *)
 (* The harness gives the function as a table: value of f on point ids 0..n-1. *)
 Definition run_case (t : dtree) (i : binputs) (fvals : list nat) : list nat :=
